@@ -368,6 +368,15 @@ bool vfps::ProgramOptions::parse(int ac, char** av)
                     _vm.at("SynchrotronFrequency").value()
                             = _vm["SyncFreq"].value();
                 }
+                // same for the other compatibility names
+                if(_vm.count("RFVoltage")) {
+                    _vm.at("AcceleratingVoltage").value()
+                            = _vm["RFVoltage"].value();
+                }
+                if(_vm.count("steps")) {
+                    _vm.at("StepsPerTs").value()
+                            = _vm["steps"].value();
+                }
                 notify(_vm);
             }
         } else if (_configfile != "default.cfg") {
